@@ -86,6 +86,9 @@ func mkEvent(i int, t watch.EventType) watch.Event {
 
 var panics []string
 
+// plainContext: open the watch with context.TODO() instead of a cancellable context that outlives it.
+var plainContext bool
+
 var bubbleRe = regexp.MustCompile(`(?m)^goroutine \d+ \[[^\]]*synctest bubble`)
 
 // bubbleGoroutines counts the goroutines of the current synctest bubble.
@@ -105,7 +108,15 @@ func execute(t *testing.T, events []watch.EventType, sched []action) *obs {
 		hc := helper.NewHijackClient(kube, pc)
 		synctest.Wait()
 		base := bubbleGoroutines()
-		w, err := hc.AppsV1().StatefulSets("default").Watch(context.TODO(), metav1.ListOptions{})
+		ctx := context.TODO()
+		if !plainContext {
+			// the caller's context outlives the watch (a controller's root context): it is cancelled only after the
+			// verdict, so nothing of the watch may be left waiting for it
+			c, cancel := context.WithCancel(context.Background())
+			defer cancel()
+			ctx = c
+		}
+		w, err := hc.AppsV1().StatefulSets("default").Watch(ctx, metav1.ListOptions{})
 		if err != nil {
 			o.Violations = append(o.Violations, "watch-open-error|"+err.Error())
 			return
@@ -348,6 +359,16 @@ func TestC20(t *testing.T) {
 					os.Exit(2)
 				}
 			}
+			if len(seq) <= 1 {
+				// the same schedule with a context that can never be cancelled: same observations
+				plainContext = true
+				o3 := execute(t, seq, sched)
+				plainContext = false
+				execs++
+				if fmt.Sprint(o.Received, o.Closed, o.Violations, o.Enabled) != fmt.Sprint(o3.Received, o3.Closed, o3.Violations, o3.Enabled) {
+					o.Violations = append(o.Violations, fmt.Sprintf("context-kind-changes-behaviour|with context.TODO(): received=%v closed=%v violations=%v; with a cancellable context that outlives the watch: received=%v closed=%v violations=%v", o3.Received, o3.Closed, o3.Violations, o.Received, o.Closed, o.Violations))
+				}
+			}
 			label := fmt.Sprintf("events=%v schedule=%v", seq, sched)
 			rep.Count(sha(label), len(sched) > 0, fmt.Sprintf("received=%d closed=%v violations=%d", len(o.Received), o.Closed, len(o.Violations)))
 			outcomes[fmt.Sprint(o.Received, o.Closed)]++
@@ -375,7 +396,7 @@ func TestC20(t *testing.T) {
 	rep.Extra["schedules_executed"] = execs
 	rep.Extra["distinct_consumer_observations"] = len(outcomes)
 	rep.Extra["max_schedule_length"] = maxLen
-	rep.Rule = fmt.Sprintf("stateless exploration of the real hijack watch (opened through the real hijack client) under a controlled scheduler built on testing/synctest: the harness owns the source (unbuffered channel, stop-aware send, ends when stopped) and the consumer; after every action synctest.Wait() runs the relay goroutine to its next blocking point, so every schedule is deterministic (first 200 schedules executed twice and compared). Actions: offer next event, close source, consumer receive (only when something is deliverable), consumer Stop (<=2); every prefix of every schedule up to length %d is executed and judged as 'the consumer does nothing more from here'. Event sequences: all over {Added, Modified, Deleted, Bookmark, Error} up to length 2, length 3 over %v. Oracle: received = the source's events in order with equal type and equivalent built-in object (Error statuses relayed), no panic in the relay, and once the consumer stopped or the source ended the result channel is closed and no goroutine of the watch remains. Three further scenarios put a scheduling point inside Stop (a source whose Stop blocks until released; each in a child process): consumer/consumer, relay/consumer and consumer/relay overlapping Stop calls must neither panic nor leave the channel open. Non-trivial = non-empty schedule.", maxLen, third)
+	rep.Rule = fmt.Sprintf("stateless exploration of the real hijack watch (opened through the real hijack client) under a controlled scheduler built on testing/synctest: the harness owns the source (unbuffered channel, stop-aware send, ends when stopped) and the consumer; the watch is opened with a cancellable context that outlives it (cancelled only after the verdict; for event sequences of length <=1 every schedule is executed again with context.TODO() and must be observed identically); after every action synctest.Wait() runs the relay goroutine to its next blocking point, so every schedule is deterministic (first 200 schedules executed twice and compared). Actions: offer next event, close source, consumer receive (only when something is deliverable), consumer Stop (<=2); every prefix of every schedule up to length %d is executed and judged as 'the consumer does nothing more from here'. Event sequences: all over {Added, Modified, Deleted, Bookmark, Error} up to length 2, length 3 over %v. Oracle: received = the source's events in order with equal type and equivalent built-in object (Error statuses relayed), no panic in the relay, and once the consumer stopped or the source ended the result channel is closed and no goroutine of the watch remains. Three further scenarios put a scheduling point inside Stop (a source whose Stop blocks until released; each in a child process): consumer/consumer, relay/consumer and consumer/relay overlapping Stop calls must neither panic nor leave the channel open. Non-trivial = non-empty schedule.", maxLen, third)
 	rep.Assumptions = []string{"rendezvous granularity: between two channel operations the relay touches shared state only under Stop's mutex; a separate free-running -race pass of the same bodies (TestC20Race) guards that premise", "goroutine leaks are counted with runtime.NumGoroutine relative to the count before the watch was opened, inside the synctest bubble"}
 	rep.Extra["overlapping_stop_scenarios"] = runOverlapScenarios(rep)
 	race := os.Getenv("VERIF_C20_RACE")
